@@ -78,8 +78,12 @@ def gen_spec(seed, index, tier):
     base, obj = None, None
     for _ in range(30):
         lo = -0.3 if cls == "Polyhedron" else -1.5
-        cand = gen.gen_base(shape_rng, cls, scale=10 ** shape_rng.uniform(lo, 1.6)) \
-            if cls not in gen.CURVED else gen.gen_base(shape_rng, cls)
+        if cls in gen.CURVED:
+            # closed-form classes have no tolerance window: a third of the runs go far out
+            cand = gen.gen_base(shape_rng, cls, scale=10 ** (
+                shape_rng.uniform(-9, 9) if shape_rng.chance(0.33) else shape_rng.uniform(-2, 2)))
+        else:
+            cand = gen.gen_base(shape_rng, cls, scale=10 ** shape_rng.uniform(lo, 1.6))
         try:
             obj = gen.build(cand)
             base = cand
@@ -94,7 +98,9 @@ def gen_spec(seed, index, tier):
     n = ops.randint(1, 6 if tier == "quick" else 10)
     steps = history.gen_steps(ops, obj, n, bad_rate=0.2, malformed_rate=0.0, setter_bias=3.0,
                               factor_decades=ops.choice([1.0, 1.0, 3.0]),
-                              ext_range=(0.3 if cls == "Polyhedron" else 1e-2, 300.0))
+                              ext_range=((1e-12, 1e12) if cls in gen.CURVED else
+                                         (0.3 if cls == "Polyhedron" else 1e-2, 300.0)),
+                              coord_max=1e14 if cls in gen.CURVED else 2500.0)
     if forced:
         _, prop, mode = forced
         st = {"op": "set", "prop": prop, "inner": False, "pyseed": ops.u32(),
